@@ -231,8 +231,13 @@ func (r *Run) Finish() int {
 		"wall_s": time.Since(r.Start).Seconds(), "violations": r.nviol,
 	}
 	b, _ := json.MarshalIndent(ev, "", " ")
-	_ = os.MkdirAll(filepath.Join(VerifDir, "evidence"), 0755)
-	if err := os.WriteFile(filepath.Join(VerifDir, "evidence", r.ID+".json"), b, 0644); err != nil {
+	// evidence describes /repo; a run against another checkout (the seeded-change matrix) keeps its record apart
+	evdir := "evidence"
+	if alt := os.Getenv("VERIF_REPO"); alt != "" && alt != "/repo" {
+		evdir = filepath.Join(".work", "evidence-alt")
+	}
+	_ = os.MkdirAll(filepath.Join(VerifDir, evdir), 0755)
+	if err := os.WriteFile(filepath.Join(VerifDir, evdir, r.ID+".json"), b, 0644); err != nil {
 		fmt.Println("INFRA: cannot write evidence:", err)
 		return 2
 	}
